@@ -665,7 +665,9 @@ func flowOf(evs []Ev) string {
 	for i := range evs {
 		e := &evs[i]
 		if e.K == EvStep || e.K == EvFault {
-			fmt.Fprintf(&sb, "%d/%d/%02x;", e.Depth, e.PC, e.Op)
+			// a step that could not be paid for is announced like any other step, with the
+			// error attached: it is part of the control flow
+			fmt.Fprintf(&sb, "%d/%d/%02x/%v;", e.Depth, e.PC, e.Op, e.Err != "")
 		}
 	}
 	return sb.String()
